@@ -73,7 +73,9 @@ def main(argv=None):
     jobs = [j + (inner,) for j in jobs]
     results = run_jobs(jobs)
 
-    known = [k for k in load_known() if k.get("property") == args.pid and k.get("status") == "known"]
+    # a unit may serve several properties: a listed finding of ANOTHER property that shows up in a shared unit is reported under its
+    # own property id and is not a violation of this one
+    known = [k for k in load_known() if k.get("status") == "known"]
     exit_code = 0
     lines = []
     violations = []
@@ -150,7 +152,7 @@ def main(argv=None):
     for k, ob in known_hits:
         seen_known.setdefault(k["obligation"], (k, []))[1].append(ob)
     for key, (k, obs) in seen_known.items():
-        lines.append(f"KNOWN-FINDING: property={args.pid} {k['obligation']} {k.get('what', '')}")
+        lines.append(f"KNOWN-FINDING: property={k.get('property', args.pid)} {k['obligation']} {k.get('what', '')}")
 
     replay_dir = os.path.join(args.evidence_dir, "replays")
     viol_records = []
@@ -327,7 +329,9 @@ def run_jobs(jobs):
     if len(jobs) == 1 or nproc <= 1:
         raw = [_worker(j) for j in jobs]
     else:
-        with ProcessPoolExecutor(max_workers=min(nproc, len(jobs))) as ex:
+        # one fresh process per job: module-level tables (interned literals, axioms, lazily allocated objects) never leak from one
+        # unit into the next, so what a unit generates does not depend on how jobs happen to be scheduled
+        with ProcessPoolExecutor(max_workers=min(nproc, len(jobs)), max_tasks_per_child=1) as ex:
             raw = list(ex.map(_worker, jobs))
     for lst in raw:
         for d in lst:
